@@ -2,7 +2,7 @@
 """tools/py2gmq.py --repo R --out DIR
 
 Translates the QUERY and SAMPLING paths of `src/mbi/graphical_model.py` — `GraphicalModel.project`, `krondot`,
-`synthetic_data` with its inner `synthetic_col` — STATEMENT BY STATEMENT into Lean definitions
+`synthetic_data` with its inner `synthetic_col`, `calculate_many_marginals` — STATEMENT BY STATEMENT into Lean definitions
 (`PGM/Generated/GraphicalModelQG.lean`, namespace `PGM.GMQ`).  The inference core of the same file is translated by
 `tools/py2gm.py` (imported here as a library: its source-fact checks are reused, and the generated file imports
 `GraphicalModelG.lean`, so calls of `variable_elimination_logspace`, `variable_elimination`, `belief_propagation(…, logZ=True)`
@@ -31,6 +31,16 @@ Statements
   assert E                              -> the separate definition `<name>Pre`
   def f(..) (nested)                    -> its own definition; free variables must be declared closure parameters
   return E
+  -- calculate_many_marginals (one method, four definitions: a SEGMENT of the body each; a segment starts/ends at the first top-level
+     statement binding a given name, the value of an earlier segment is the call of its definition) --
+  self.marginals = E (first statement)  -> its own definition (`manyCalibrate`); later reads of `self.marginals` are the parameter `marginals`
+  d = {} (d declared a dictionary)      -> let d : T := []                 (association list in insertion order)
+  d[k] = E                              -> GM.dictSet d k E                (an existing key keeps its position)
+  t1 = t2 = E                           -> let v := E ; t1 = v ; t2 = v    (E evaluated once, targets assigned left to right)
+  pred, dist = nx.floyd_warshall_predecessor_and_distance(self.junction_tree.tree, weight=False)
+                                        -> the contract parameters `pred`, `dist` (hop-count shortest paths of the junction tree)
+  for x in XS: if C: BODY; break        -> match XS.find? C with | some x => BODY | none => (state unchanged)   (first hit only)
+  for k in d (d a dictionary)           -> loop over `d.map Prod.fst` (insertion order)
 Expressions (by type)
   self.<field>, X[0], X[1:], X[::-1], len(X), X + [y], X + (y,), tuple(X), list(X), [x], {x}
   set(a) <= set(b) -> JT.subset; [cl for cl in XS if x in cl] -> filter; set.union(*XS) -> foldl JT.union [] ; s.intersection(t) -> JT.inter
@@ -45,7 +55,17 @@ Expressions (by type)
   np.random.choice(n, size, True|False, p) -> choice_replace / choice_noreplace g n size p   (contract parameters, generator threaded)
   df.groupby(list(by)) -> groupby df by (contract parameter: the list of (key, index) pairs); group.index, group.shape[0], df.shape[0]
   int(x) (x ≥ 0: floor), A if C else B, x is None, ==, >, >=, not, in
-Not translated (listed in the header of the output): __init__, save, load (pickle: contract), calculate_many_marginals, fit, greedy_order
+  -- calculate_many_marginals --
+  d[k] (dictionary read; KeyError when absent: the model's default) -> dictGet d k / nbGet d k ; k in d / k not in d -> dictHas
+  (a, b) of two tuples -> a pair of cliques ; X[0], X[1] of a pair -> X.1, X.2 ; a == b on tuples
+  sep[(i, j)] with sep = self.sep_axes -> JT.inter i j (junction_tree.py checked; the order of `tuple(set(i) & set(j))` is unspecified: the
+      model's listing, as tools/py2gm.py does — only used as `Z / Z.project(S)`, which expands the divisor onto Z's domain)
+  set(a) - set(b) -> a.filter (not in b) (listed in a's order; only passed to Factor.sum, which reads membership)
+  X * Y, X / Y (factors) -> Factor.mul / Factor.divF ; F.sum(S) -> Factor.sum ; D.canonical(a) -> Dom.canonical (domain.py checked)
+  sorted(XS, key=lambda X: E) -> Dom.sortBy (stable insertion sort = Python's stable `sorted`) ; itertools.combinations(XS, 2) -> GM.combos2
+  pred[a][b], dist[a][b] -> pred a b, dist a b ; {K: V for k in d} -> foldl GM.dictSet [] over the keys (colliding keys: the later value, the
+      first position) ; self.belief_propagation(p) (logZ defaulted False) -> GMG.beliefPropagation ; self.project(a) -> the parameter `fallback`
+Not translated (listed in the header of the output): __init__, save, load (pickle: contract), fit, greedy_order
 (set iteration order and the tie-breaking of `min` are unspecified: its result enters as the contract parameter `greedy_order`).
 """
 import argparse, ast, os, sys
@@ -60,8 +80,14 @@ LT = {'attr': 'Attr', 'attrs': 'List Attr', 'aset': 'List Attr', 'clique': CL, '
       'qfactor': 'Factor Rat', 'ndq': 'NdArr Rat', 'ql': 'List Rat', 'zl': 'List Int', 'nl': 'List Nat', 'df': 'DF', 'str': 'String',
       'optnat': 'Option Nat', 'groups': 'List (List Nat × List Nat)', 'key': 'List Nat', 'group': 'List Nat', 'order': f'List ({CL} × {CL})',
       'pyvalp': 'GMG.PyVal β', 'ndp': 'NdArr β', 'mats': 'List (NdArr β)', 'shape': 'List Nat', 'rng': 'G', 'dataset': 'Dataset Rat',
-      'attrmats': 'List (Attr × NdArr β)'}
-ELEM = {'cliques': 'clique', 'attrs': 'attr', 'groups': ('key', 'group'), 'attrmats': ('attr', 'ndp')}
+      'attrmats': 'List (Attr × NdArr β)',
+      'nbdict': f'List ({CL} × List {CL})', 'pairdict': f'List (({CL} × {CL}) × Factor β)', 'attrdict': 'List (List Attr × Factor β)',
+      'cpair': f'{CL} × {CL}', 'cpairs': f'List ({CL} × {CL})', 'attrslist': 'List (List Attr)'}
+ELEM = {'cliques': 'clique', 'attrs': 'attr', 'groups': ('key', 'group'), 'attrmats': ('attr', 'ndp'), 'cpairs': ('clique', 'clique'),
+        'attrslist': 'attrs'}
+# dictionaries: key type, value type, the read `d[k]` (KeyError in Python when absent: the model's default)
+DICT = {'nbdict': ('clique', 'cliques', 'nbGet'), 'pairdict': ('cpair', 'pfactor', 'dictGet'), 'attrdict': ('attrs', 'pfactor', 'dictGet')}
+PSEUDO = ('sepdict', 'predfn', 'distfn', 'predrow', 'distrow')      # names bound without a `let`
 LISTY = ('attrs', 'clique')         # tuples / lists of attribute names
 
 # contract parameters: python callee -> (lean name, lean type)
@@ -75,6 +101,9 @@ CONTRACTS = {
     'project': ('project', 'List Attr → Factor Rat'),
     'toPlain': ('toPlain', 'Factor α → Factor β'),
     'plainS': ('plainS', 'α → β'),
+    'pred': ('pred', f'{CL} → {CL} → {CL}'),
+    'dist': ('dist', f'{CL} → {CL} → Nat'),
+    'fallback': ('fallback', 'List Attr → Factor β'),
 }
 RNG_CONTRACTS = ('choice_replace', 'choice_noreplace', 'shuffle')
 
@@ -169,6 +198,15 @@ class Q:
     def const(self, n):
         return isinstance(n, ast.Constant)
 
+    def iterable(self, n):
+        """-> (lean list, element type): a list, or a dictionary iterated (its keys, in insertion order)"""
+        xs, tx = self.expr(n)
+        if tx in DICT:
+            return f'({xs}.map Prod.fst)', DICT[tx][0]
+        if tx not in ELEM:
+            fail(n, f'loop over {tx}')
+        return xs, ELEM[tx]
+
     # ------------------------------------------------------------------ expressions
     def expr(self, n):
         if isinstance(n, ast.Name):
@@ -221,11 +259,15 @@ class Q:
                 return '[' + ', '.join(t for t, _ in ts) + ']', 'attrs'
             if all(ty in ('attrs', 'clique') for _, ty in ts) and isinstance(n, ast.List):
                 return '[' + ', '.join(t for t, _ in ts) + ']', 'cliques'
+            if all(ty in ('attrs', 'clique') for _, ty in ts) and isinstance(n, ast.Tuple) and len(ts) == 2:
+                return f'({ts[0][0]}, {ts[1][0]})', 'cpair'          # a pair of tuples: a dictionary key
             fail(n, 'unsupported list/tuple display')
         if isinstance(n, ast.Set) and len(n.elts) == 1:
             return f'[{self.typed(n.elts[0], "attr")}]', 'aset'
         if isinstance(n, ast.ListComp):
             return self.listcomp(n)
+        if isinstance(n, ast.DictComp):
+            return self.dictcomp(n)
         fail(n, 'unsupported expression')
 
     def attribute(self, n):
@@ -282,6 +324,21 @@ class Q:
             return f'(NpQ.row {base} {k})', 'ql'
         if tb == 'pfactors' and isinstance(s, ast.Constant) and s.value == 0:
             return f'({base}.headD (Factor.zeros []))', 'pfactor'
+        if tb in DICT:
+            kt, vt, get = DICT[tb]
+            k = self.attrlist(s) if kt in LISTY else self.typed(s, kt)
+            return f'({get} {base} {k})', vt
+        if tb == 'sepdict':
+            # sep_axes[(i, j)] = tuple(set(i) & set(j)) (checked in junction_tree.py by need_field): listed as the model lists it
+            if not (isinstance(s, ast.Tuple) and len(s.elts) == 2):
+                fail(n, 'sep_axes is indexed by a pair of cliques')
+            return f'(JT.inter {self.typed(s.elts[0], "clique")} {self.typed(s.elts[1], "clique")})', 'attrs'
+        if tb == 'cpair' and isinstance(s, ast.Constant) and s.value in (0, 1) and type(s.value) is int:
+            return f'{base}.{s.value + 1}', 'clique'
+        if tb in ('predfn', 'distfn'):
+            return f'{base} {self.typed(s, "clique")}', {'predfn': 'predrow', 'distfn': 'distrow'}[tb]
+        if tb in ('predrow', 'distrow'):
+            return f'({base} {self.typed(s, "clique")})', {'predrow': 'clique', 'distrow': 'nat'}[tb]
         fail(n, f'unsupported subscript of {tb}')
 
     def compare(self, n):
@@ -312,6 +369,10 @@ class Q:
             return f'({a} == {b})', 'bool'
         if isinstance(op, ast.Eq) and ta == tb == 'nat':
             return f'({a} == {b})', 'bool'
+        if isinstance(op, ast.Eq) and ta in LISTY and tb in LISTY:
+            return f'({a} == {b})', 'bool'                      # tuples of strings: equal iff the same sequence
+        if isinstance(op, (ast.In, ast.NotIn)) and tb in DICT and (ta == DICT[tb][0] or (ta in LISTY and DICT[tb][0] in LISTY)):
+            return (f'(dictHas {b} {a})' if isinstance(op, ast.In) else f'(!(dictHas {b} {a}))'), 'bool'
         num = {('int', 'nat'): lambda x, y: (x, f'({y} : Int)'), ('nat', 'nat'): lambda x, y: (x, y), ('int', 'int'): lambda x, y: (x, y)}
         if (ta, tb) in num and isinstance(op, (ast.Gt, ast.GtE)):
             x, y = num[(ta, tb)](a, b)
@@ -346,6 +407,14 @@ class Q:
         if isinstance(op, ast.Mult):
             if ta == 'ndp' and tb == 'pscalar':
                 return f'(NdArr.map (fun v => Scalar.mul v {b}) {a})', 'ndp'
+            if ta == tb == 'pfactor':
+                self.gen.need_factor_binop('__mul__', n)
+                return f'(Factor.mul {a} {b})', 'pfactor'
+        if isinstance(op, ast.Div) and ta == tb == 'pfactor':
+            self.gen.need_factor_binop('__truediv__', n)
+            return f'(Factor.divF {a} {b})', 'pfactor'
+        if isinstance(op, ast.Sub) and ta == tb == 'aset':
+            return f'({a}.filter (fun ξ => !({b}.contains ξ)))', 'aset'      # set difference, listed in the order of the left operand
         fail(n, f'unsupported operator on {ta} and {tb}')
 
     def listcomp(self, n):
@@ -371,6 +440,23 @@ class Q:
         if ety == 'aset' and ast.unparse(n.elt) == f'set({v})':
             return out, 'cliques'            # [set(cl) for cl in XS]: the same tuples, read as sets
         return f'({out}.map (fun {v} => {et}))', res
+
+    def dictcomp(self, n):
+        """{K: V for k in d}: entries are stored in iteration order; a key that occurs again overwrites the value and keeps the position"""
+        if len(n.generators) != 1 or not isinstance(n.generators[0].target, ast.Name) or n.generators[0].ifs or n.generators[0].is_async:
+            fail(n, 'unsupported comprehension')
+        g = n.generators[0]
+        xs, et = self.iterable(g.iter)
+        if not isinstance(et, str):
+            fail(n, 'unsupported comprehension')
+        v = g.target.id
+        q = self.child()
+        q.env[v] = (v, et)
+        q.dead.pop(v, None)
+        (k, tk), (val, tv) = q.expr(n.key), q.expr(n.value)
+        res = next((d for d, (kt, vt, _) in DICT.items() if vt == tv and (kt == tk or (kt in LISTY and tk in LISTY))), None) \
+            or fail(n, f'dictionary from {tk} to {tv}')
+        return f'({xs}.foldl (fun (δ : {LT[res]}) ({v} : {LT[et]}) => GM.dictSet δ {k} {val}) [])', res
 
     def call(self, n):
         f, args, kws = n.func, n.args, {k.arg: k.value for k in n.keywords}
@@ -418,6 +504,18 @@ class Q:
             if fn in self.env and self.env[fn][1] == 'factorclass' and len(args) == 2 and not kws:
                 self.gen.need_factor_init(n)
                 return f'(Factor.mk\' {self.typed(args[0], "dom")} {self.typed(args[1], "ndp")})', 'pfactor'
+            if fn == 'sorted' and len(args) == 1 and set(kws) == {'key'} and isinstance(kws['key'], ast.Lambda):
+                xs, tx = self.expr(args[0])
+                lam = kws['key']
+                la = lam.args
+                if tx != 'cpairs' or len(la.args) != 1 or la.vararg or la.kwarg or la.kwonlyargs or la.defaults or la.posonlyargs:
+                    fail(n, 'only sorted(<pairs of cliques>, key=lambda X: <int>) is supported')
+                v = la.args[0].arg
+                q = self.child()
+                q.env[v] = (v, 'cpair')
+                q.dead.pop(v, None)
+                # Python's sorted is stable; Dom.sortBy is the stable insertion sort of the hand model
+                return f'(Dom.sortBy (fun {v} => {q.typed(lam.body, "nat")}) {xs})', 'cpairs'
             if fn == 'type' and len(args) == 1 and not kws:
                 t, ty = self.expr(args[0])
                 if ty == 'pfactor':
@@ -445,6 +543,9 @@ class Q:
                 and isinstance(args[0], ast.Tuple) and len(args[0].elts) == 2:
             r, c = self.typed(args[0].elts[0], 'nat'), self.typed(args[0].elts[1], 'nat')
             return '#zeros', f'zeros:{r}:{c}'
+        if fn == 'itertools.combinations' and len(args) == 2 and not kws and self.const(args[1]) and args[1].value == 2 and type(args[1].value) is int:
+            self.gen.need_import('import itertools', n)
+            return f'(GM.combos2 {self.typed(args[0], "cliques")})', 'cpairs'
         if fn == 'set.union' and len(args) == 1 and isinstance(args[0], ast.Starred) and not kws:
             xs = self.typed(args[0].value, 'cliques')
             return f'({xs}.foldl JT.union [])', 'aset'        # TypeError in Python when the list is empty
@@ -454,6 +555,20 @@ class Q:
                 if m == 'project' and len(args) == 1 and not kws and 'project' in self.spec['contracts']:
                     self.gen.need_method('project', ['self', 'attrs'], n)
                     return f'({self.contract("project", n)} {self.attrlist(args[0])})', 'qfactor'
+                if m == 'project' and len(args) == 1 and not kws and 'fallback' in self.spec['contracts']:
+                    self.gen.need_method('project', ['self', 'attrs'], n)
+                    return f'({self.contract("fallback", n)} {self.attrlist(args[0])})', 'pfactor'
+                if m == 'belief_propagation' and len(args) == 1 and not kws:
+                    self.gen.need_bp_default(n)
+                    self.gen.need_gmg('beliefPropagation', n)
+                    for fld in ('cliques', 'message_order', 'total'):
+                        self.used_fields.add(fld)
+                        if fld not in self.spec['fields']:
+                            fail(n, f'needs the field `{fld}`')
+                        self.gen.need_field(fld, n)
+                    if self.spec['fields']['total'][1] != 'scalar':
+                        fail(n, 'belief_propagation needs `total` in log space')
+                    return f'(GMG.beliefPropagation cliques message_order {self.typed(args[0], "cvec")} total)', 'cvec'
                 if m == 'belief_propagation' and len(args) == 1 and set(kws) == {'logZ'} and self.const(kws['logZ']) and kws['logZ'].value is True:
                     self.gen.need_gmg('logZ', n)
                     for fld in ('cliques', 'message_order'):
@@ -463,6 +578,15 @@ class Q:
                     return f'(GMG.logZ cliques message_order {self.typed(args[0], "cvec")})', 'scalar'
                 fail(n, 'unsupported method of self')
             base, tb = self.expr(f.value)
+            if tb == 'dom' and m == 'canonical' and len(args) == 1 and not kws:
+                self.gen.need_domain_canonical(n)
+                return f'(Dom.canonical {base} {self.attrlist(args[0])})', 'attrs'
+            if tb == 'pfactor' and m == 'sum' and len(args) == 1 and not kws:
+                self.gen.need_factor_sum(n)
+                t, ty = self.expr(args[0])
+                if ty not in ('aset', 'attrs', 'clique'):
+                    fail(n, f'sum over {ty}')
+                return f'(Factor.sum {base} {t})', 'pfactor'
             if tb == 'dom' and m == 'invert' and len(args) == 1 and not kws:
                 self.gen.g.need_domain_contains(n)
                 return f'(Dom.invert {base} {self.attrlist(args[0])})', 'attrs'
@@ -544,8 +668,9 @@ class Q:
             self.env[name] = (term, ty)
             self.dead.pop(name, None)
             return
-        if ty == 'factorclass':
+        if ty == 'factorclass' or ty in PSEUDO:
             self.env[name] = (term, ty)
+            self.dead.pop(name, None)
             return
         if ty not in LT:
             fail(st, f'cannot bind a value of type {ty}')
@@ -595,6 +720,9 @@ class Q:
         want = self.spec['ret']
         if ty == 'factor' and want == 'pfactor':
             t, ty = f'({self.contract("toPlain", st)} {t})', 'pfactor'
+        if ty == 'cvec' and want == 'pcvec':
+            # the tables `belief_propagation` returns are exponentiated (plain numbers): every entry re-read as a plain table
+            t, ty = f'({t}.map (fun p => (p.1, {self.contract("toPlain", st)} p.2)))', 'pcvec'
         if ty != want:
             fail(st, f'returns {ty}, expected {want}')
         if '#g' in self.env:
@@ -670,6 +798,18 @@ class Q:
     def stmt(self, st, lines):
         if isinstance(st, ast.Assign) and len(st.targets) == 1:
             return self.assign(st.targets[0], st.value, st, lines)
+        if isinstance(st, ast.Assign):
+            # t1 = t2 = E: E is evaluated once, then the targets are assigned from left to right
+            t, ty = self.hoist(st.value, lines)
+            if ty not in LT:
+                fail(st, f'cannot bind a value of type {ty}')
+            self.tmp += 1
+            v = f'v{self.tmp}'
+            lines.append(f'let {v} := {t}')
+            self.env[f'#{v}'] = (v, ty)
+            for tg in st.targets:
+                self.assign(tg, ast.Name(id=f'#{v}', ctx=ast.Load()), st, lines)
+            return
         if isinstance(st, ast.AugAssign):
             return self.augassign(st, lines)
         if isinstance(st, ast.Expr) and isinstance(st.value, ast.Call):
@@ -708,9 +848,27 @@ class Q:
         fail(st, 'unsupported statement')
 
     def assign(self, tg, v, st, lines):
+        if isinstance(tg, ast.Name) and isinstance(v, ast.Dict) and not v.keys:
+            ty = self.spec.get('dicts', {}).get(tg.id) or fail(st, f'`{tg.id}` is not declared a dictionary of this definition')
+            lines.append(f'let {tg.id} : {LT[ty]} := []')
+            self.env[tg.id] = (tg.id, ty)
+            self.dead.pop(tg.id, None)
+            return
         if isinstance(tg, ast.Name):
             t, ty = self.hoist(v, lines)
             return self.bind(tg.id, t, ty, lines, st)
+        if isinstance(tg, ast.Tuple) and isinstance(v, ast.Call) and ast.unparse(v.func) == 'nx.floyd_warshall_predecessor_and_distance':
+            # all-pairs shortest paths of the junction tree, every edge of length 1 (`weight=False`: no edge carries such an attribute,
+            # networkx then counts 1 per edge): contract parameters
+            self.gen.need_import('import networkx as nx', st)
+            self.gen.need_junction_tree(st)
+            if [ast.unparse(a) for a in v.args] != ['self.junction_tree.tree'] or [(k.arg, ast.unparse(k.value)) for k in v.keywords] != [('weight', 'False')]:
+                fail(st, 'only floyd_warshall_predecessor_and_distance(self.junction_tree.tree, weight=False) is supported')
+            if [ast.unparse(e) for e in tg.elts] != ['pred', 'dist']:
+                fail(st, 'the result must be unpacked as `pred, dist`')
+            self.bind('pred', self.contract('pred', st), 'predfn', lines, st)
+            self.bind('dist', self.contract('dist', st), 'distfn', lines, st)
+            return
         if isinstance(tg, ast.Tuple) and len(tg.elts) == 2 and all(isinstance(e, ast.Name) for e in tg.elts):
             t, ty = self.expr(v)
             if ty == 'ql×ql':
@@ -719,6 +877,17 @@ class Q:
                 self.env[a], self.env[b] = (a, 'ql'), (b, 'ql')
                 return
             fail(st, f'unpacking of {ty}')
+        if isinstance(tg, ast.Subscript) and isinstance(tg.value, ast.Name) and self.env.get(tg.value.id, ('', ''))[1] in DICT \
+                and tg.value.id not in self.dead:
+            # d[k] = E: key first?  Python evaluates E, then d, then k; all three are pure here
+            d = tg.value.id
+            cur, td = self.expr(tg.value)
+            kt, vt, _ = DICT[td]
+            t, ty = self.hoist(v, lines)
+            if ty != vt:
+                fail(st, f'stores a {ty} in a dictionary of {vt}')
+            k = self.attrlist(tg.slice) if kt in LISTY else self.typed(tg.slice, kt)
+            return self.bind(d, f'(GM.dictSet {cur} {k} {t})', td, lines, st)
         if isinstance(tg, ast.Subscript):
             b = tg.value
             # df[col] = E
@@ -787,12 +956,11 @@ class Q:
     def for_(self, st, lines):
         if st.orelse:
             fail(st, 'for … else')
-        xs, tx = self.expr(st.iter)
-        if tx not in ELEM:
-            fail(st, f'loop over {tx}')
+        xs, et = self.iterable(st.iter)
         q = self.child()
-        et = ELEM[tx]
         pre = []
+        if isinstance(st.target, ast.Name) and et == ('clique', 'clique'):
+            et = 'cpair'
         if isinstance(st.target, ast.Name) and isinstance(et, str):
             var, tnames = st.target.id, [st.target.id]
             q.env[var] = (var, et)
@@ -811,6 +979,26 @@ class Q:
         if not names:
             fail(st, 'a loop that updates nothing')
         ety = LT[et] if isinstance(et, str) else f'{LT[et[0]]} × {LT[et[1]]}'
+        b = [s_ for s_ in st.body if not is_doc(s_)]
+        if len(b) == 1 and isinstance(b[0], ast.If) and not b[0].orelse and isinstance(b[0].body[-1], ast.Break) and isinstance(st.target, ast.Name) \
+                and not any(isinstance(n, (ast.Break, ast.Continue)) for s_ in b[0].body[:-1] for n in ast.walk(s_)):
+            # for x in XS: if C: BODY; break  — BODY runs once, for the FIRST x satisfying C; nothing happens when there is none
+            if self.effects_in(st.body):
+                fail(st, 'a draw inside a loop with break')
+            c = q.typed(b[0].test, 'bool')
+            if not b[0].body[:-1]:
+                fail(st, 'a loop that updates nothing')
+            body = q.block(b[0].body[:-1], lambda: q.tup(names))
+            for x in names:
+                if q.env[x][1] != self.env[x][1]:
+                    fail(st, f'`{x}` changes its type inside the loop')
+            lines.append(f'let {self.tup(names)} : {self.tup_ty(names)} := (match {xs}.find? (fun ({var} : {ety}) => {c}) with\n'
+                         f'    | some {var} =>\n{ind(body, 6)}\n    | none => {self.tup(names)})')
+            self.kill_new(st.body, before, 'bound inside a loop')
+            for x in tnames:
+                self.dead[x] = 'a loop target'
+                self.env.pop(x, None)
+            return
         body = q.block(st.body, lambda: q.tup(names))
         for x in names:
             if q.env[x][1] != self.env[x][1]:
@@ -825,6 +1013,18 @@ class Q:
 
 
 # ---------------------------------------------------------------------------- the definitions to generate
+MM = 'calculate_many_marginals'
+PRELUDE_MM = '''/-! ## `calculate_many_marginals` — fixed prelude: dictionary reads (KeyError in Python when the key is absent: the model's default) -/
+
+/-- `d[k]` for a dictionary of factors -/
+def dictGet {β : Type} [Scalar β] {κ : Type} [BEq κ] (d : List (κ × Factor β)) (k : κ) : Factor β := (List.lookup k d).getD (Factor.zeros [])
+
+/-- `k in d` -/
+def dictHas {κ γ : Type} [BEq κ] (d : List (κ × γ)) (k : κ) : Bool := d.any (fun p => p.1 == k)
+
+/-- `neighbors[c]` -/
+def nbGet (d : List (JT.Clique × List JT.Clique)) (k : JT.Clique) : List JT.Clique := (List.lookup k d).getD []
+'''
 F_DOMAIN, F_CLIQUES, F_POTS = ('domain', 'dom'), ('cliques', 'cliques'), ('potentials', 'cvec')
 SPECS = [
     dict(py='project', lean='project', two=True, pyargs=['self', 'attrs'],
@@ -859,8 +1059,31 @@ SPECS = [
                  ('total', 'pscalar', 'self'), ('matrices', 'mats', 'arg')],
          contracts=['toPlain', 'plainS'], ret='ndp',
          doc='`toPlain` / `plainS` re-read an exponentiated log-space table / number as plain ones (the identity for floats)'),
+    # calculate_many_marginals: the attribute store of the first statement, then three consecutive parts of the body
+    dict(py=MM, lean='manyCalibrate', two=True, pyargs=['self', 'projections'], store_value='marginals', prelude=PRELUDE_MM,
+         params=[('cliques', 'cliques', 'self'), ('message_order', 'order', 'self'), ('potentials', 'cvec', 'self'), ('total', 'scalar', 'self')],
+         contracts=['toPlain'], ret='pcvec',
+         doc='the value stored by the first statement, `self.marginals = self.belief_propagation(self.potentials)`; `toPlain` re-reads the '
+             'exponentiated log-space tables as plain ones (the identity for floats).  The definitions below take it as the parameter `marginals`'),
+    dict(py=MM, lean='manyConditional', two=True, pyargs=['self', 'projections'], stored='marginals', segment=(None, 'pred'), result='conditional',
+         params=[('marginals', 'pcvec', 'self'), ('sep_axes', 'sepdict', 'ghost'), ('neighbors', 'nbdict', 'self')], dicts={'conditional': 'pairdict'},
+         contracts=[], ret='pairdict',
+         doc='the statements after the store up to the double loop over `neighbors`: the dictionary `conditional`, keyed by `(Cj, Ci)`.  '
+             '`sep[(Cj, Ci)]` is listed as `JT.inter Cj Ci`'),
+    dict(py=MM, lean='manyResults', two=True, pyargs=['self', 'projections'], stored='marginals', segment=('pred', 'answers'), result='results',
+         params=[('domain', 'dom', 'self'), ('cliques', 'cliques', 'self'), ('marginals', 'pcvec', 'self'), ('conditional', 'pairdict', 'local')],
+         dicts={'results': 'pairdict'}, contracts=['pred', 'dist'], ret='attrdict',
+         doc='from `pred, dist = …` to the re-keying comprehension: the dictionary `results` keyed by canonical attribute tuples.  '
+             '`pred`, `dist`: `nx.floyd_warshall_predecessor_and_distance` on the junction tree'),
+    dict(py=MM, lean='calculateManyMarginals', two=True, pyargs=['self', 'projections'], stored='marginals', segment=('answers', None),
+         calls=['manyConditional', 'manyResults'],
+         params=[('domain', 'dom', 'self'), ('cliques', 'cliques', 'self'), ('marginals', 'pcvec', 'self'), ('neighbors', 'nbdict', 'self'),
+                 ('projections', 'attrslist', 'arg')], dicts={'answers': 'attrdict'},
+         contracts=['pred', 'dist', 'fallback'], ret='attrdict',
+         doc='the whole method after the store: the dictionary `answers` (insertion order; `projections` are tuples — a list is not '
+             'hashable).  `fallback` is `self.project` of the same object (which then sees the stored marginals)'),
 ]
-SKIPPED = ['__init__', 'save', 'load', 'calculate_many_marginals', 'fit', 'greedy_order']
+SKIPPED = ['__init__', 'save', 'load', 'fit', 'greedy_order']
 OTHERS = ['belief_propagation', 'datavector', 'mle', 'variable_elimination_logspace', 'variable_elimination']     # tools/py2gm.py
 
 
@@ -882,8 +1105,63 @@ class Gen:
             if want not in body:
                 fail(node, f'__init__ no longer says `{want}`')
             return
+        if field == 'neighbors':
+            # self.neighbors = tree.neighbors() = {i: set(tree.neighbors(i)) for i in maximal_cliques()}: keys in `self.cliques` order,
+            # the order inside each set unspecified
+            if 'self.neighbors = tree.neighbors()' not in body or 'tree = JunctionTree(domain, cliques, elimination_order)' not in body:
+                fail(node, '__init__ no longer says `self.neighbors = tree.neighbors()`')
+            fn, b = self.g._body('junction_tree.py', 'JunctionTree', 'neighbors', node)
+            if b != norm('return {i: set(self.tree.neighbors(i)) for i in self.maximal_cliques()}'):
+                fail(fn, 'JunctionTree.neighbors is not `{i: set(self.tree.neighbors(i)) for i in self.maximal_cliques()}`', 'junction_tree.py')
+            self.g.need_field('cliques', node)
+            return
         if field in py2gm.INIT_FIELDS:
             self.g.need_field(field, node)
+
+    def need_import(self, text, node):
+        if text not in self.g.imports:
+            fail(node, f'the module no longer says `{text}`')
+
+    def need_junction_tree(self, node):
+        """self.junction_tree.tree is the tree whose nodes are `self.cliques` and whose adjacency `self.neighbors` lists"""
+        init = self.methods.get('__init__') or fail(node, '__init__ not found')
+        body = [ast.unparse(s) for s in init.body]
+        for want in ('tree = JunctionTree(domain, cliques, elimination_order)', 'self.junction_tree = tree'):
+            if want not in body:
+                fail(node, f'__init__ no longer says `{want}`')
+        fn, b = self.g._body('junction_tree.py', 'JunctionTree', '__init__', node)
+        if 'self.tree, self.order = self._make_tree(elimination_order)' not in b:
+            fail(fn, 'JunctionTree.__init__ no longer says `self.tree, self.order = self._make_tree(elimination_order)`', 'junction_tree.py')
+        fn, b = self.g._body('junction_tree.py', 'JunctionTree', 'maximal_cliques', node)
+        if b != norm('return list(nx.dfs_preorder_nodes(self.tree))'):
+            fail(fn, 'JunctionTree.maximal_cliques is not `list(nx.dfs_preorder_nodes(self.tree))`', 'junction_tree.py')
+
+    def need_bp_default(self, node):
+        fn = self.methods.get('belief_propagation') or fail(node, 'belief_propagation not found')
+        ds = fn.args.defaults
+        if [a.arg for a in fn.args.args] != ['self', 'potentials', 'logZ'] or len(ds) != 1 or not (isinstance(ds[0], ast.Constant) and ds[0].value is False):
+            fail(fn, 'belief_propagation(self, potentials, logZ=False): signature or default changed')
+
+    def need_domain_canonical(self, node):
+        fn, body = self.g._body('domain.py', 'Domain', 'canonical', node)
+        if [a.arg for a in fn.args.args] != ['self', 'attrs'] or body != norm('return tuple((a for a in self.attrs if a in attrs))'):
+            fail(fn, 'Domain.canonical is not `tuple(a for a in self.attrs if a in attrs)`', 'domain.py')
+
+    def need_factor_sum(self, node):
+        """Factor.sum(attrs) reads `attrs` through Domain.axes / Domain.marginalize: np.sum over a set of axes, the remaining attributes in
+        the factor's own order — neither depends on the order in which `attrs` is listed"""
+        fn, body = self.g._body('factor.py', 'Factor', 'sum', node)
+        if [a.arg for a in fn.args.args] != ['self', 'attrs'] or body != norm(
+                'if attrs is None:\n    return np.sum(self.values)\naxes = self.domain.axes(attrs)\nvalues = np.sum(self.values, axis=axes)\n'
+                'newdom = self.domain.marginalize(attrs)\nreturn Factor(newdom, values)'):
+            fail(fn, 'Factor.sum changed', 'factor.py')
+
+    def need_factor_binop(self, d, node):
+        """`X * Y` / `X / Y` on two Factors are Factor.__mul__ / __truediv__ (their bodies are tied to Factor.mul / Factor.divF by
+        tools/py2factor.py: C14F `gen_mul`, `gen_truediv`)"""
+        fn, _ = self.g._body('factor.py', 'Factor', d, node)
+        if [a.arg for a in fn.args.args] != ['self', 'other']:
+            fail(fn, f'signature of Factor.{d} changed', 'factor.py')
 
     def need_gmg(self, name, node):
         if name not in self.gmg:
@@ -941,7 +1219,7 @@ class Gen:
         spec['fields'], spec['optional'], spec['flags'], spec['used_flags'] = {}, {}, set(), set()
         env = {}
         for p, t, kind in spec['params']:
-            if kind == 'self':
+            if kind in ('self', 'ghost'):
                 spec['fields'][p] = (p, t)
             elif kind == 'opt':
                 spec['fields'][p] = (p, t)
@@ -964,7 +1242,63 @@ class Gen:
             if len(asserts) != 1 or body[0] is not asserts[0]:
                 fail(fn, 'expected exactly one leading assert')
             pre = self.assert_term(asserts[0], q)
-        if spec.get('after'):
+        line = fn.lineno
+        if spec.get('store_value') or 'segment' in spec:
+            # the method starts with the attribute store `self.<f> = E`: `store_value` translates E, a `segment` reads the parameter <f>
+            f = spec.get('store_value') or spec['stored']
+            st0 = body[0] if body else fail(fn, 'empty body')
+            if not (isinstance(st0, ast.Assign) and len(st0.targets) == 1 and ast.unparse(st0.targets[0]) == f'self.{f}'):
+                fail(st0, f'the first statement is no longer the store `self.{f} = …`')
+            if any(isinstance(n, (ast.Assign, ast.AugAssign, ast.Delete)) and f'self.{f}' in
+                   [ast.unparse(t) for t in (n.targets if not isinstance(n, ast.AugAssign) else [n.target])] for s_ in body[1:] for n in ast.walk(s_)):
+                fail(fn, f'self.{f} is stored again')
+        if spec.get('store_value'):
+            t, ty = q.expr(body[0].value)
+            term = q.ret(t, ty, body[0])
+            line = body[0].lineno
+        elif 'segment' in spec:
+            rest = body[1:]
+            frm, upto = spec['segment']
+
+            def first(name):
+                return next((i for i, s_ in enumerate(rest) if name in assigned([s_])), None) if name else None
+            lo = 0 if frm is None else first(frm)
+            hi = len(rest) if upto is None else first(upto)
+            if lo is None or hi is None or lo >= hi:
+                fail(fn, f'cannot find the statements between the first binding of `{frm}` and of `{upto}`')
+            seg = rest[lo:hi]
+            line = seg[0].lineno
+            pre_lines = []
+            for prev_name in spec.get('calls', ()):
+                prev = next(s_ for s_ in SPECS if s_['lean'] == prev_name)
+                args = [CONTRACTS[c][0] for c in prev['contracts']]
+                for p_, t_, kind in prev['params']:
+                    if kind == 'ghost':
+                        continue
+                    if kind == 'self':
+                        if p_ not in spec['fields'] or spec['fields'][p_][1] != t_:
+                            fail(fn, f'`{prev_name}` needs the field `{p_}`')
+                        q.used_fields.add(p_)
+                    elif q.env.get(p_, ('', ''))[1] != t_:
+                        fail(fn, f'`{prev_name}` needs `{p_}`')
+                    args.append(p_)
+                for c in prev['contracts']:
+                    q.contract(c, fn)
+                pre_lines.append(f'let {prev["result"]} := {prev_name} {" ".join(args)}')
+                q.env[prev['result']] = (prev['result'], prev['ret'])
+            if upto is not None:
+                if has_return(seg):
+                    fail(fn, 'a return before the last segment of the body')
+                res = spec['result']
+
+                def tail():
+                    if q.env.get(res, ('', ''))[1] != spec['ret'] or res in q.dead:
+                        fail(seg[-1], f'`{res}` is not a {spec["ret"]} at the end of this part')
+                    return res
+                term = '\n'.join(pre_lines + [q.block(seg, tail)])
+            else:
+                term = '\n'.join(pre_lines + [q.block(seg, None)])
+        elif spec.get('after'):
             last = body[-1]
             if not isinstance(last, ast.Return):
                 fail(fn, 'the last statement is not a return')
@@ -985,19 +1319,19 @@ class Gen:
                 fail(fn, 'no frame `df` at the end of the body')
         else:
             term = q.block(body, None)
-        declared = {p for p, _, k in spec['params'] if k in ('self', 'opt')}
+        declared = {p for p, _, k in spec['params'] if k in ('self', 'opt', 'ghost')}
         if declared - q.used_fields:
             fail(fn, f'no longer reads self.{sorted(declared - q.used_fields)[0]}')
         if spec['flags'] - spec['used_flags']:
             fail(fn, f'no longer tests {sorted(spec["flags"] - spec["used_flags"])[0]}')
         if not spec.get('after'):
             for p_, _, kind in spec['params']:
-                if kind in ('arg', 'closure') and p_ not in self.read_names:
+                if kind in ('arg', 'closure', 'local') and p_ not in self.read_names:
                     fail(fn, f'no longer reads its argument `{p_}`')
         missing = [c for c in spec['contracts'] if c not in q.used_contracts]
         if missing:
             fail(fn, f'no longer uses the contract `{missing[0]}`')
-        self.emit(spec, fn, term, pre)
+        self.emit(spec, fn, term, pre, line)
 
     def assert_term(self, st, q):
         """assert all(M.shape[1] == n for M, n in zip(matrices, self.domain.shape))"""
@@ -1012,7 +1346,7 @@ class Gen:
         q.used_fields.add('domain')
         return '(List.zip matrices (Dom.shape domain)).all (fun (M, n) => (NdArr.shape M).getD 1 0 == n)'
 
-    def emit(self, spec, fn, term, pre):
+    def emit(self, spec, fn, term, pre, line=None):
         ps = []
         if spec.get('two'):
             ps.append('{β : Type} [Scalar β]')
@@ -1021,12 +1355,14 @@ class Gen:
         for c in spec['contracts']:
             ps.append(f'({CONTRACTS[c][0]} : {CONTRACTS[c][1]})')
         for p, t, kind in spec['params']:
+            if kind == 'ghost':
+                continue
             ty = LT[t]
             ps.append(f'({p} : Option ({ty}))' if kind == 'opt' else f'({p} : {ty})')
         if spec.get('rng'):
             ps.append('(g : G)')
         rty = LT[spec['ret']] + (' × G' if spec.get('rng') else '')
-        where = f'`GraphicalModel.{spec["py"].replace("/", " / ")}` (graphical_model.py:{fn.lineno})'
+        where = f'`GraphicalModel.{spec["py"].replace("/", " / ")}` (graphical_model.py:{line or fn.lineno})'
         doc = where + (f' — {spec["doc"]}' if spec['doc'] else '')
         if pre is not None:
             pps = ' '.join(f'({p} : {LT[t]})' for p, t, _ in spec['params'] if p in ('domain', 'matrices'))
@@ -1037,7 +1373,12 @@ class Gen:
         for name in list(self.methods) + list(self.funcs):
             if name not in SKIPPED and name not in OTHERS and name not in {s['py'].split('/')[0] for s in SPECS}:
                 fail(self.methods.get(name) or self.funcs.get(name), 'a function this translator neither translates nor lists as skipped')
+        for a, b in zip(SPECS, SPECS[1:]):
+            if 'segment' in a and 'segment' in b and a['segment'][1] != b['segment'][0]:
+                fail('module', 'the parts of a method must follow one another')
         for spec in SPECS:
+            if spec.get('prelude'):
+                self.out.append(spec['prelude'])
             self.one(spec)
         return self.out
 
@@ -1045,7 +1386,10 @@ class Gen:
 HEADER = '''/- GENERATED by tools/py2gmq.py from src/mbi/graphical_model.py — do not edit
    Statement-level translation of the query and sampling paths: `GraphicalModel.project` (whole method: `project`; the path without
    cached marginals: `projectUncached`), `synthetic_data` (`syntheticCol` = the inner function, `syntheticFrame` = the body up to the
-   final return, `syntheticData` = the value returned) and `krondot` (+ its assertion `krondotPre`).
+   final return, `syntheticData` = the value returned), `krondot` (+ its assertion `krondotPre`) and `calculate_many_marginals` (at the end
+   of the file: `manyCalibrate` = the value the first statement stores in `self.marginals`; then, with that value as the parameter
+   `marginals`, `manyConditional` = the double loop over `neighbors`, `manyResults` = the loop over the sorted clique pairs and the
+   canonical re-keying, `calculateManyMarginals` = the whole method after the store, returning the dictionary `answers`).
    Calls of `variable_elimination_logspace`, `variable_elimination`, `belief_propagation(…, logZ=True)` are calls of the definitions
    generated by tools/py2gm.py (`GMG.*`).
    Contract parameters (their assumed behaviour is a hypothesis of the theorems of C02G / C11G):
@@ -1055,7 +1399,18 @@ HEADER = '''/- GENERATED by tools/py2gmq.py from src/mbi/graphical_model.py — 
      choice_replace / choice_noreplace / shuffle   `np.random.choice(n, size, True|False, p)` / `np.random.shuffle`; `g : G` is the
                     state of the generator, threaded through every draw in program order
      project        `self.project` as seen from `synthetic_data` (exact rationals); toPlain / plainS: the plain reading of log-space values
-   NOT translated: __init__ (its fields are inputs), save, load (pickle), calculate_many_marginals, fit, greedy_order. -/
+     pred, dist     `nx.floyd_warshall_predecessor_and_distance(self.junction_tree.tree, weight=False)`: `pred ci cj` = the node before `cj`
+                    on the path from `ci`, `dist ci cj` = its number of edges (no edge has an attribute named `False`: every edge counts 1;
+                    networkx returns the floats 1.0, 2.0, …, here `Nat`)
+     fallback       `self.project` as seen from `calculate_many_marginals` (plain tables; the object then has the attribute `marginals`)
+   Fields read as inputs by `calculate_many_marginals`: `neighbors` (`tree.neighbors()`: clique -> set of adjacent cliques, keys in
+   `self.cliques` order, the order inside a set unspecified: a list); `sep_axes[(i, j)]` = `tuple(set(i) & set(j))` (junction_tree.py,
+   checked) has no specified order: it is listed as `JT.inter i j` (the hand model's listing, the precedent of tools/py2gm.py) — it is only
+   used as `Z / Z.project(S)`, which expands the divisor back onto `Z`'s domain.  `S = set(Cl) - set(Ci) - set(Cj)` is listed in `Cl`'s
+   order; it is only passed to `Factor.sum`, which reads membership (factor.py, checked).  Dictionaries are association lists in
+   insertion order; `d[k] = v` keeps the position of an existing key (`GM.dictSet`); a read of an absent key (KeyError) is the model's
+   default `Factor.zeros []`.
+   NOT translated: __init__ (its fields are inputs), save, load (pickle), fit, greedy_order. -/
 import PGM.Generated.GraphicalModelG
 import PGM.Generated.DatasetG
 set_option linter.unusedVariables false
